@@ -948,6 +948,12 @@ def temp_mutation(idx: ProgramIndex, rep: Report, tier: str):
                 c = chain(st.value)
                 if c and c.startswith("self.") and c.count(".") >= 2:
                     saves[st.targets[0].id] = (c, st)
+                elif c and c.startswith("self.") and c.count(".") == 1:
+                    # own attribute: only the save / None / restore idiom (the object is detached for the duration of a call)
+                    nulled = any(isinstance(s2, ast.Assign) and any(src(t) == c for t in s2.targets) and isinstance(s2.value, ast.Constant) and s2.value.value is None for s2 in walk_no_nested(fi.node))
+                    restored = any(isinstance(s2, ast.Assign) and any(src(t) == c for t in s2.targets) and src(s2.value) == st.targets[0].id for s2 in walk_no_nested(fi.node))
+                    if nulled and restored:
+                        saves[st.targets[0].id] = (c, st)
         for local, (attr_chain, save_st) in saves.items():
             # a later store to the same chain of a value that is not the saved local = temporary mutation
             mut = [s for s in walk_no_nested(fi.node) if isinstance(s, ast.Assign) and any(src(t) == attr_chain for t in s.targets) and src(s.value) != local]
@@ -963,11 +969,19 @@ def temp_mutation(idx: ProgramIndex, rep: Report, tier: str):
             rep.add("C03-6", inst, "%s:%d" % (fi.module.relpath, mut[0].lineno), ok,
                     "temporarily mutated %s is restored from `%s` on every normal path" % (attr_chain, local) if ok else
                     "%s is temporarily overwritten but a normal path leaves the function without restoring it from `%s`" % (attr_chain, local), {})
-            if tier == "thorough":
+            # cleared to None around a call: the object is unusable (and gives no error) if the call raises before the restore, so the
+            # restore has to sit in a finally block
+            cleared = any(isinstance(m_.value, ast.Constant) and m_.value.value is None for m_ in mut)
+            if cleared and ok:
+                in_finally = all(_in_finally(fi.node, r) for r in rest)
+                rep.add("C03-6", inst + "[exceptional]", "%s:%d" % (fi.module.relpath, mut[0].lineno), in_finally,
+                        "%s is cleared to None around a call and restored in a finally block" % attr_chain if in_finally else
+                        "%s is set to None around a call and restored afterwards, but not in a finally block: when the call raises, the object is left without %s (a model without training data silently predicts its prior, a kernel without active_dims uses all input columns)" % (attr_chain, attr_chain.split(".")[-1]), {})
+            elif tier == "thorough":
                 in_finally = any(_in_finally(fi.node, r) for r in rest)
                 if not in_finally:
                     rep.observe("C03-6", inst + "[exceptional]", "%s:%d" % (fi.module.relpath, mut[0].lineno), "restore is not in a finally block: an exception between mutation and restore leaves %s modified (exceptions thrown by user code are not among the operations the property lists)" % attr_chain)
-    rep.floor("C03-6", "save/mutate/restore sites", n, 2)
+    rep.floor("C03-6", "save/mutate/restore sites", n, 6)
 
 
 def _restored_on_all_normal_paths(fi: FuncInfo, mut: List[ast.AST], rest: List[ast.AST]) -> bool:
